@@ -229,5 +229,5 @@ META = {
             "is not mechanised). A failure before the first transition is reported with the empty path, which cannot be given to "
             "model-check/replay (simgrid then runs without replay, which reproduces that failure anyway).",
     "technique": "Coq proof (decimal printing/scanning, induction on the path) + differential correspondence + model-checker runs and replays",
-    "claimed": False,
+    "claimed": True,
 }
